@@ -107,6 +107,7 @@ class PCACD(StreamingDetector):
         self._reference_pca_projection = pd.DataFrame()
         self._test_pca_projection = pd.DataFrame()
         self._density_reference = {}
+        self._bin_ranges = {}
         self._change_score = [0]
 
     def update(self, X, y_true=None, y_pred=None):
@@ -190,6 +191,7 @@ class PCACD(StreamingDetector):
                             bins=self.bins,
                             bin_range=(self.lower, self.upper),
                         )
+                        self._bin_ranges[f"PC{i + 1}"] = (self.lower, self.upper)
 
                     else:
                         self._density_reference[f"PC{i + 1}"] = self._build_kde(
@@ -213,11 +215,12 @@ class PCACD(StreamingDetector):
             # Winsorize incoming data to align with reference and test histograms
             if self.divergence_metric == "intersection":
                 for i in range(self.num_pcs):
-                    if next_proj.iloc[0, i] < self.lower:
-                        next_proj.iloc[0, i] = self.lower
+                    lower, upper = self._bin_ranges[f"PC{i + 1}"]
+                    if next_proj.iloc[0, i] < lower:
+                        next_proj.iloc[0, i] = lower
 
-                    elif next_proj.iloc[0, i] > self.upper:
-                        next_proj.iloc[0, i] = self.upper
+                    elif next_proj.iloc[0, i] > upper:
+                        next_proj.iloc[0, i] = upper
 
             # Add projection to test projection data
             self._test_pca_projection = pd.concat(
@@ -237,7 +240,7 @@ class PCACD(StreamingDetector):
                         self._density_test[f"PC{i + 1}"] = self._build_histograms(
                             self._test_pca_projection.iloc[:, i],
                             bins=self.bins,
-                            bin_range=(self.lower, self.upper),
+                            bin_range=self._bin_ranges[f"PC{i + 1}"],
                         )
 
                     elif self.divergence_metric == "kl":
